@@ -530,7 +530,7 @@ func (a *walkerAbs) clauses(s string) []walkerClause {
 	if s == "" {
 		return out
 	}
-	for _, part := range strings.Split(s, "; ") {
+	for _, part := range strings.Split(s, walkerSep) {
 		out = append(out, a.clause(part))
 	}
 	return out
@@ -566,7 +566,7 @@ func walkerRun(scn *walkerScn, style, carrier string, markers []walkerMarker) (r
 			if objName != "" {
 				fp = objName + "." + fieldName
 			}
-			live := strings.TrimSuffix(errBuf.String(), "; ")
+			live := strings.TrimSuffix(errBuf.String(), walkerSep)
 			res.Probes = append(res.Probes, walkerEvent{E: "probe", Fp: abs.path(fp), Rule: validName, Val: walkerEcho(tv), Buf: abs.clauses(live)})
 			if bad {
 				errBuf.WriteString(valid.GetJoinValidErrStr(objName, fieldName, walkerEcho(tv), "explain:", "tok", validName))
@@ -748,6 +748,7 @@ type walkerOut struct {
 	Panic   string         `json:"panic,omitempty"`
 	Probes  int            `json:"probes"`
 	TrailOK bool           `json:"trailOK"`
+	Sep     string         `json:"sep"`
 }
 
 func walkerLoadMarkers(path string) ([]walkerMarker, error) {
@@ -760,7 +761,20 @@ func walkerLoadMarkers(path string) ([]walkerMarker, error) {
 }
 
 // walker-replay -markers <file> [-gen] [-carriers a,b] < vectors.ndjson > results.ndjson
+// walkerSep is the clause separator of this process.  The library takes it from the exported variable ErrEndFlag; with
+// VERIF_ENDFLAG set the harness assigns that variable before the first call and splits errors at the same text, so the
+// walkers are also observed under a separator other than the default one.
+var walkerSep = "; "
+
+func walkerSetSep() {
+	if s := os.Getenv("VERIF_ENDFLAG"); s != "" {
+		valid.ErrEndFlag = s
+		walkerSep = s
+	}
+}
+
 func walkerReplay(args []string) error {
+	walkerSetSep()
 	fs := flag.NewFlagSet("walker-replay", flag.ContinueOnError)
 	mpath := fs.String("markers", "", "marker table (json) printed by Gen_Walker")
 	withGen := fs.Bool("gen", false, "run the generated named types too")
@@ -796,7 +810,7 @@ func walkerReplay(args []string) error {
 					continue
 				}
 				out.put(walkerOut{ID: v.ID, Style: style, Carrier: carrier, Kind: r.Kind, Clauses: r.Clauses, Raw: r.Raw,
-					Panic: r.Panic, Probes: len(r.Probes), TrailOK: !strings.HasSuffix(r.Raw, "; ") && !strings.HasSuffix(r.Raw, ";")})
+					Panic: r.Panic, Probes: len(r.Probes), TrailOK: !strings.HasSuffix(r.Raw, walkerSep) && !strings.HasSuffix(r.Raw, strings.TrimSpace(walkerSep)), Sep: walkerSep})
 			}
 		}
 	}
@@ -1182,6 +1196,7 @@ func walkerStripText(s *walkerScn) *walkerScn {
 // walker-record -markers f -out prefix -shards k [-n N -nils] [-stdin] [-gen]
 // Writes traces  scn probe* (ret|panic)  for random scenarios (seeded) or for the scenarios on stdin.
 func walkerRecord(args []string) error {
+	walkerSetSep()
 	fs := flag.NewFlagSet("walker-record", flag.ContinueOnError)
 	mpath := fs.String("markers", "", "marker table")
 	outp := fs.String("out", "walkertrace", "output prefix")
